@@ -61,6 +61,15 @@ TEXT = {
   "note": "Trusted: Coq kernel, extraction, driver (incl. its IP formatter), harness. Agreement of ptr_ip with the independent spec_reverse is checked per case, not proved in general. Defect F13 (case-sensitive .arpa) fixed in /repo.",
   "technique": "Coq proof over the resolve-flow model + finite exhaustive check lifted by computation + differential correspondence check",
  },
+ "C14": {
+  "text": "PARTIAL. Proved in Coq (Properties/C14.v): with reporting off no device header is produced; the device id always has exactly five "
+          "characters and is a function of profile id and device bytes; the model string depends on the first three MAC bytes only and is at most 12 "
+          "characters; whatever bytes a discovered name holds, the X-Device-Name value that is sent is a valid header value. xxhash64 is transcribed "
+          "and checked against the real shortID. Not provable here: header validation inside net/http (transcribed as valid_header_value and tied by "
+          "real HTTP/2 requests). Tie: package-main probe (shortID, ClientInfo closure) and real DoH requests with scripted client information.",
+  "note": "Trusted: Coq kernel, extraction, driver, harness, the add-only package-main probe. net/http's header validation is outside the proof. Observation (not a finding): when the hash has fewer than five base-32 digits (probability 2^-44) shortID reuses input bytes. Defect F4 (control byte in a name broke every query of that client) fixed in /repo.",
+  "technique": "Coq proof over the transcribed hashing/formatting functions (partial) + differential check against the daemon binary and real HTTP/2 requests",
+ },
  "C16": {
   "text": "Proved in Coq (Properties/C16.v) on an LTS of ListenAndServe (one thread per UDP/TCP listener, main, environment choosing bind outcomes "
           "and the stop time), for every number of listeners and every interleaving: an invariant of all reachable states; once cancelled some "
